@@ -397,3 +397,23 @@ Section Checkpoint.
     | OpContinue j l n :: r => if Nat.eqb i j then (l, n) :: legs_of i r else legs_of i r
     end.
 End Checkpoint.
+
+(* ------------------------------------------------------------------ solutions_storage (option of performSpatiallyAdaptiv)
+   `self.solutions_storage[num_evaluations] = self.operation.get_result()` at every evaluation: a dict keyed by the point count.
+   Python dict semantics: an existing key keeps its position and gets the new value, a new key is appended. *)
+Fixpoint store_set {A} (k : Z) (v : A) (l : list (Z * A)) : list (Z * A) :=
+  match l with
+  | [] => [(k, v)]
+  | (k', v') :: r => if k =? k' then (k, v) :: r else (k', v') :: store_set k v r
+  end.
+Fixpoint store_get {A} (k : Z) (l : list (Z * A)) : option A :=
+  match l with [] => None | (k', v) :: r => if k =? k' then Some v else store_get k r end.
+(* the storage after the evaluations with (point count, result) kvs, starting from the dict the caller passed in *)
+Definition storage_after {A} (kvs : list (Z * A)) (st : list (Z * A)) : list (Z * A) :=
+  fold_left (fun s kv => store_set (fst kv) (snd kv) s) kvs st.
+(* the result of the LAST evaluation that had point count k *)
+Fixpoint last_with {A} (k : Z) (kvs : list (Z * A)) : option A :=
+  match kvs with
+  | [] => None
+  | (k', v) :: r => match last_with k r with Some w => Some w | None => if k =? k' then Some v else None end
+  end.
